@@ -41,6 +41,7 @@ class Contract:
     raises: dict = {}          # exception name -> human readable condition (explicit raises allowed)
     inline_depth = 6
     timeout_ms = 20000
+    force_inline = ()
 
     def shapes(self):
         return [{}]
@@ -98,6 +99,7 @@ def verify_function(front: Front, reg, contracts: ContractSet, c: Contract, shap
     def path_fn(p: Path):
         I = Interp(front, p, reg, contracts, target=c.qual, inline_depth=c.inline_depth)
         I.contract = c
+        I.force_inline_quals = set(getattr(c, "force_inline", ()))
         from .engine import Frame
         I.frames.append(Frame(info.module, info.cls, info))      # scratch frame for setup-time evaluation
         pre = c.setup(I, shape)
